@@ -691,7 +691,8 @@ impl<'r, 'gc> Cb<'r, 'gc> {
                 let Some((wp, target)) = self.holder_weak(*holder, *wslot) else { return Ok(()) };
                 let dk = self.destructed_known(target);
                 let was_dead = wp.is_dead(fc);
-                let got = wp.resurrect(fc);
+                // odd targets are resurrected through the type-erased form of the weak pointer
+                let got = if target % 2 == 1 { wp.resurrect_erased_first(fc) } else { wp.resurrect(fc) };
                 self.ex.stats.inc(&format!("resurrect_{}", match dk { Some(true) => "shell", Some(false) => "live", None => "unknown" }));
                 if let Some(destructed) = dk {
                     if got.is_some() == destructed {
@@ -752,7 +753,7 @@ impl<'r, 'gc> Cb<'r, 'gc> {
                     self.ptrs.insert(child, cp);
                 }
                 let was_dead = strong_is_dead(fc, cp);
-                strong_resurrect(fc, cp);
+                if child % 2 == 1 { strong_resurrect_erased(fc, cp) } else { strong_resurrect(fc, cp) }
                 self.note_resurrected(child, was_dead);
                 self.ex.stats.inc("resurrect_strong");
             }
